@@ -24,6 +24,8 @@ def run(col, configs, tier):
         guarded(col, X.rule_integer_sign_allowance, facts)
         guarded(col, X.rule_exponent_allowance, facts)
         guarded(col, X.rule_buffer_allowance, facts)
+        from rules import tbl_write_integer as I17
+        guarded(col, I17.rule_sizes, facts)
         for crate in ("lexical_write_float", "lexical_parse_float"):
             guarded(col, O.rule_options_builder, facts, crate)
             guarded(col, O.rule_options_is_valid, facts, crate)
